@@ -1,12 +1,12 @@
 #!/bin/bash
-# seedcheck.sh <Cxx> [extra check ids...] : confirm a seeded change (tests pass, demonstration fails with the
+# seedcheck.sh <Cxx> [extra check ids...]   (SEED_ROOT=/tmp/seed2 SEED_SUFFIX=-2 for the second round) : confirm a seeded change (tests pass, demonstration fails with the
 # change and passes without) and run the quick check(s) against it; results go to seeded/<Cxx>/
 set -u
 export GOFLAGS=-mod=mod GOPROXY=off GOSUMDB=off GOTOOLCHAIN=local
 P=$1; shift
-S=/tmp/seed/$P; R=$S/repo; O=$S/out
+S=${SEED_ROOT:-/tmp/seed}/$P; R=$S/repo; O=$S/out
 V=$(cd "$(dirname "$0")/.." && pwd)
-D=$V/seeded/$P; mkdir -p $D
+D=$V/seeded/$P${SEED_SUFFIX:-}; mkdir -p $D
 cp $O/patch.diff $O/meta.json $D/ 2>/dev/null
 cp $O/demo* $D/ 2>/dev/null
 log=$D/confirm.log; : > $log
